@@ -530,8 +530,8 @@ func Run() int {
 		e.sweep("B", func(emit func(Case) bool) { genBytes(emit, 2, 2, 3) })
 		e.sweep("T", func(emit func(Case) bool) { genTokens(emit, append(append([]string{}, coreTokens...), moreTokens...), 0, 3, "alphabet=50") })
 		e.sweep("E1", func(emit func(Case) bool) { genSingleEdits(emit, pick(150, 1<<30)) })
-		e.sweep("T4", func(emit func(Case) bool) { genTokens(emit, coreTokens, 4, 4, "alphabet=30") })
 		e.sweep("E2", func(emit func(Case) bool) { genDoubleEdits(emit, pick(40, 60)) })
+		e.sweep("T4", func(emit func(Case) bool) { genTokens(emit, coreTokens, 4, 4, "alphabet=30") })
 	} else {
 		e.sweep("B", func(emit func(Case) bool) { genBytes(emit, 2, 1, 0) })
 		e.sweep("T", func(emit func(Case) bool) { genTokens(emit, coreTokens, 0, 3, "alphabet=30") })
